@@ -73,7 +73,7 @@ def _nokbi(prog):
 def searches(tier):
     q = tier == "quick"
     return [
-        ("fault-free", schedgen.program(maxdepth=2), 500 if q else 6000),
+        ("fault-free", schedgen.program(maxdepth=2, prerun_ok=True), 500 if q else 6000),
         ("faults", schedgen.program(maxdepth=2, faults=True, always_ok=True).map(_nokbi), 350 if q else 4000),
         ("members", schedgen.program(maxdepth=2, members=True, faults=True, always_ok=True).map(_nokbi),
          350 if q else 4000),
